@@ -99,7 +99,7 @@ class C04(Prop):
     assumptions = ('result order is compared with the order in which the harness handlers actually produced values (their own log)',
                    'handler results that are lists or Value objects are not generated (outside the quantifier / API ambiguity)',
                    'notify is a generated configuration only; nothing is asserted about *_value_changed')
-    budget = {'quick': (2500, 4), 'thorough': (60000, 16)}
+    budget = {'quick': (2500, 4), 'thorough': (40000, 16)}
 
     shrink_lists = {'events': 1, 'handlers': 1, 'fire': 0, 'steps': 0}
 
